@@ -22,6 +22,8 @@ CLIENT_FUNCS = {"setError", "writeLoop", "readLoop", "sendErrConnack", "connectW
 
 def canon_sig(sig):
     """driver signature (<symptom>:<parked goroutines>) -> the signature used for known findings"""
+    if sig.startswith("unanswered:") and sig.endswith(":seterror-blocked-in-once-writing-disconnect"):
+        return "seterror-blocked-in-once-writing-disconnect"
     if sig.startswith("c05:") or sig.startswith("no-close-after-protocol-error") or sig.startswith("unanswered"):
         return sig
     cause = sig.split(":", 1)[1] if ":" in sig else sig
@@ -109,6 +111,19 @@ def extract_ops(ctx):
     use(one("readLoop", "close", "in"))
     use(one("connectWithTimeOut", "close", "connected"))
     use(one("internalClose", "close", "closed"))
+    # (as repaired) the DISCONNECT is offered inside the Once: select { case client.out <- d: default: }
+    offer = [o for o in ops if o["func"] == "setError" and o["kind"] == "send" and o["chan"] == "out"]
+    for o in offer:
+        if not (o["select"] and o.get("select_default") and not o.get("select_others") and o["in_once_do"] and o["line"] < cl["line"]):
+            bad("setError sends to out at client.go:%d in a shape the model does not know" % o["line"])
+        known.add((o["func"], o["kind"], o["chan"], o["line"]))
+    m["seterror_offer_in_once"] = len(offer) > 0
+    # the `<-client.close` clause that guards one of the operations above
+    for o in ops:
+        if o["kind"] == "recv" and o["chan"] == "close" and o["select"] and len(o.get("select_others") or []) == 1 and not o.get("select_default"):
+            k2, ch2 = o["select_others"][0].split(":")
+            if any(f == o["func"] and k == k2 and c == ch2 for (f, k, c, _) in known):
+                known.add((o["func"], o["kind"], o["chan"], o["line"]))
     for o in ops:
         if (o["func"], o["kind"], o["chan"], o["line"]) not in known:
             bad("%s %s at client.go:%d in %s" % (o["kind"], o["chan"], o["line"], o["func"]))
@@ -134,7 +149,7 @@ def extract_ops(ctx):
 
 # ------------------------------------------------------------------------------------------------ TLC on the model
 BASE = dict(NConn=1, CapIn=1, CapOut=1, CapSock=1, QMax=1, PlLimit=1, Budget=4, SameId=False, PriorSession=False,
-            KeepAlive=False, WillDelay=False, ApiCalls=0, PeerMayStall=False, PeerReads=True, TrackOwed=False)
+            KeepAlive=False, WillDelay=False, ApiCalls=0, PeerMayStall=False, PeerMayClose=True, PeerReads=True, TrackOwed=False, WithStop=True)
 
 INVS = ["TypeOK", "OnceOnly", "NothingAliveAfterStop", "OneRegistered", "LifecycleInv"]
 PROPS = ["StopReturns", "SockClosedLeadsToClosed"]
@@ -175,9 +190,8 @@ def tlc_pack(ctx, pk, ops, dev, tag, workers=2, timeout=1500, target=None):
     body = "mc_Ops == [%s]\nmc_First == %s\nmc_Rest == %s\nmc_V5 == %s\nmc_Dev == %s\n" % (
         ", ".join("%s |-> %s" % (k, tl(v)) for k, v in sorted(ops.items())), S(pk["first"]), S(pk["rest"]), S(pk["v5"]), S(sorted(dev)))
     # the rules of TraceConn.tla, as an invariant of the model
-    body += ("LifecycleInv == \\A k \\in K : /\\ closedCh[k] => (live[k] = {} /\\ ~registered[k])\n"
-             "                              /\\ (hasStores[k] /\\ ~registered[k]) => live[k] \\subseteq {\"serve\"}\n"
-             "                              /\\ (stopReturned /\\ k \\in snap) => closedCh[k]\n")
+    body += ("LifecycleInv == \\A k \\in K : (closedCh[k] => (live[k] = {} /\\ ~registered[k])) /\\ "
+             "((hasStores[k] /\\ ~registered[k]) => live[k] \\subseteq {\"serve\"}) /\\ ((stopReturned /\\ k \\in snap) => closedCh[k])\n")
     cfg = "SPECIFICATION Spec\nCONSTANTS\n"
     for k, v in pk["consts"].items():
         cfg += " %s = %s\n" % (k, tl(v) if isinstance(v, bool) else v)
